@@ -55,7 +55,11 @@ def sym_case(case):
     pre, post = SITES[site].split('{C}')
 
     def path():
-        c = SymStr.fresh('c', n)
+        # any character from TAB up to '~' except the newline (which ends a comment by definition): form feed, vertical tab, carriage return and the
+        # file / group / record separators are ordinary comment text
+        c = SymStr.fresh('c', n, lo=9, hi=126)
+        for ch in c.chars:
+            D.s.add(ch.e != 10)
         text = SymStr(list(pre) + c.chars + list(post)) if n else pre + post
         p = EquationParser()
         try:
@@ -326,7 +330,7 @@ def run(tier, seed):
     chk.assumptions = ['no variable is NAMED exactly like the marker word (a line in which the word stands on its own is the section marker, also `Exogenous = ...`, pinned by the test-suite); names that merely contain the word (EXOGENOUS_LEVEL, nonexogenous) are ordinary names and are in the name pool',
                        "a stand-alone comment line that carries the marker word IS the documented section marker (the model itself emits '# Exogenous Variables'): "
                        'for the comment-only site the expected result is the block with the marker in that place',
-                       'characters are printable ASCII; no newline inside a comment']
+                       'comment characters are ASCII from TAB (9) to ~ (126), control characters included, except the newline (which ends a comment by definition)']
     chk.outside = ['non-ASCII text', 'descriptions reaching the final text are enumerated, not symbolic (%-formatting realises strings)']
     for st, o in pmap(sym_case, cases):
         if st != 'ok':
